@@ -421,6 +421,9 @@ def real_objects(ctx, thorough):
     import logging
     from ppci import api
     from ppci.binutils.layout import Layout
+    cache = getattr(ctx, '_c17_real', {})
+    if thorough in cache:
+        return cache[thorough]
     out, skipped = [], {}
 
     def attempt(label, fn):
@@ -458,6 +461,8 @@ def real_objects(ctx, thorough):
                         out.append(('%s-%s-exe%d-as-rel' % (kind, arch, li), e, 'relocatable'))
     logging.getLogger().setLevel(logging.WARNING)
     ctx.cov['stages']['real_objects'] = {'built': len(out), 'skipped': skipped}
+    cache[thorough] = out
+    ctx._c17_real = cache
     return out
 
 
@@ -515,7 +520,7 @@ def correspondence(ctx, thorough):
     for lab, t, r, exc, o in recs[:: max(1, len(recs) // 8)]:
         ctx.note_sample({'object': lab, 'type': t, 'arch': o.arch.name,
                          'impl': ('%d bytes' % len(r.v)) if isinstance(r, OkV) else type(exc).__name__})
-    bad = ctx.run_cases('elfwriter', ['Model.ElfWriter'], cases, shard=12)
+    bad = ctx.run_cases('elfwriter', ['Model.ElfWriter'], cases, shard=30)
     if bad:
         for i in bad[:5]:
             lab, t, r, exc, o = recs[i]
@@ -524,7 +529,7 @@ def correspondence(ctx, thorough):
         lab, t, r, exc, o = recs[bad[0]]
         ctx.failed_stages.append(('correspondence', 'Model.ElfWriter.write_elf disagrees with ppci.format.elf.write_elf '
                                   'on %d of %d objects, first: %s (%s, %s)' % (len(bad), len(cases), lab, o.arch.name, t)))
-    rbad = ctx.run_cases('elfreader', ['Model.ElfWriter', 'Spec.ElfSpec', 'Proofs.C17_recover'], rcases, shard=12)
+    rbad = ctx.run_cases('elfreader', ['Model.ElfWriter', 'Spec.ElfSpec', 'Proofs.C17_recover'], rcases, shard=30)
     ctx.cov['stages']['reader_validation'] = {'objects': len(rcases), 'disagree': len(rbad or [])}
     if rbad:
         for i in rbad[:5]:
@@ -534,3 +539,420 @@ def correspondence(ctx, thorough):
         ctx.failed_stages.append(('reader_validation', 'Spec.ElfSpec.read does not accept/recover the model bytes of %d '
                                   'of %d well-formed objects, first: %s (%s, %s)' % (len(rbad), len(rcases), lab, o.arch.name, t)))
     return bad
+
+
+# ------------------------------------------------------------------ search oracle: readelf + ppci's own reader
+X86_PSABI = {'rel32': 2, 'abs64': 1, 'abs32': 10, 'absaddr64': 1}     # R_X86_64_PC32 / _64 / _32 (psABI numbers)
+GABI_MACHINE = {'x86_64': ('ELF64', 'little', 'X86-64'), 'arm': ('ELF32', 'little', 'ARM'),
+                'riscv': ('ELF32', 'little', 'RISC-V'), 'xtensa': ('ELF32', 'little', 'Xtensa'),
+                'microblaze': ('ELF32', 'big', 'MicroBlaze')}
+
+
+def run_readelf(data):
+    with tempfile.NamedTemporaryFile(suffix='.elf', delete=False) as f:
+        f.write(data)
+        path = f.name
+    try:
+        p = subprocess.run(['readelf', '-h', '-S', '-s', '-r', '-l', '-W', path], stdout=subprocess.PIPE,
+                           stderr=subprocess.PIPE, text=True, timeout=60)
+        return p.returncode, p.stdout, p.stderr
+    finally:
+        os.unlink(path)
+
+
+def parse_readelf(out):
+    r = {'hdr': {}, 'sections': [], 'symbols': [], 'relocs': {}, 'segments': []}
+    mode, cur = None, None
+    for line in out.splitlines():
+        m = re.match(r'^\s+([A-Za-z][A-Za-z /\'-]+?):\s+(.*)$', line)
+        if m and mode is None:
+            r['hdr'][m.group(1)] = m.group(2).strip()
+        if line.startswith('Section Headers:'):
+            mode = 'S'
+            continue
+        if line.startswith('Program Headers:'):
+            mode = 'P'
+            continue
+        if line.startswith('Symbol table'):
+            mode = 's'
+            continue
+        m = re.match(r"^Relocation section '(.*)' at offset", line)
+        if m:
+            mode, cur = 'r', m.group(1)
+            r['relocs'][cur] = []
+            continue
+        if line.startswith('Key to Flags') or line.startswith(' Section to Segment') or \
+           line.startswith('There are no') or not line.strip():
+            if not line.startswith('There are no'):
+                mode = mode if line.strip() else None
+            continue
+        if mode == 'S':
+            m = re.match(r'^\s*\[\s*(\d+)\]\s(.{17})\s+(\S+)\s+([0-9a-f]+)\s+([0-9a-f]+)\s+([0-9a-f]+)\s+([0-9a-f]+)\s+'
+                         r'(\S*)\s+(\d+)\s+(\d+)\s+(\d+)\s*$', line)
+            if not m:
+                m2 = re.match(r'^\s*\[\s*(\d+)\]\s(\S*)\s+(\S+)\s+([0-9a-f]+)\s+([0-9a-f]+)\s+([0-9a-f]+)\s+([0-9a-f]+)\s+'
+                              r'(\S*)\s+(\d+)\s+(\d+)\s+(\d+)\s*$', line)
+                m = m2
+            if m:
+                r['sections'].append({'nr': int(m.group(1)), 'name': m.group(2).strip(), 'type': m.group(3),
+                                      'addr': int(m.group(4), 16), 'off': int(m.group(5), 16),
+                                      'size': int(m.group(6), 16), 'es': int(m.group(7), 16), 'flg': m.group(8),
+                                      'lk': int(m.group(9)), 'inf': int(m.group(10)), 'al': int(m.group(11))})
+        elif mode == 's':
+            m = re.match(r'^\s*(\d+):\s+([0-9a-f]+)\s+(\d+|0x[0-9a-f]+)\s+(\S+)\s+(\S+)\s+(\S+)\s+(\S+)\s?(.*)$', line)
+            if m:
+                r['symbols'].append({'num': int(m.group(1)), 'value': int(m.group(2), 16), 'size': int(m.group(3), 0),
+                                     'type': m.group(4), 'bind': m.group(5), 'ndx': m.group(7),
+                                     'name': m.group(8).strip()})
+        elif mode == 'r':
+            m = re.match(r'^([0-9a-f]+)\s+([0-9a-f]+)\s+(\S+)\s+(.*)$', line)
+            if m:
+                rest = m.group(4)
+                ma = re.search(r'([+-])\s*([0-9a-f]+)\s*$', rest)
+                add = int(ma.group(2), 16) * (1 if ma.group(1) == '+' else -1) if ma else 0
+                r['relocs'][cur].append({'offset': int(m.group(1), 16), 'info': int(m.group(2), 16), 'addend': add})
+        elif mode == 'P':
+            m = re.match(r'^\s+(\S+)\s+0x([0-9a-f]+)\s+0x([0-9a-f]+)\s+0x([0-9a-f]+)\s+0x([0-9a-f]+)\s+0x([0-9a-f]+)\s+'
+                         r'(.{3})\s+(0x[0-9a-f]+|\d+)', line)
+            if m:
+                r['segments'].append({'type': m.group(1), 'off': int(m.group(2), 16), 'vaddr': int(m.group(3), 16),
+                                      'paddr': int(m.group(4), 16), 'filesz': int(m.group(5), 16),
+                                      'memsz': int(m.group(6), 16), 'flg': m.group(7)})
+    return r
+
+
+def well_formed(obj, typ):
+    """the objects the property quantifies over: what asm/cc/link produce through the ObjectFile API"""
+    names = [s.name for s in obj.sections]
+    if len(set(names)) != len(names) or any(s.alignment <= 0 for s in obj.sections):
+        return False
+    if len({y.id for y in obj.symbols}) != len(obj.symbols):
+        return False
+    for y in obj.symbols:
+        if not isinstance(y.name, str) or '\x00' in y.name or not y.name.isascii() or len(y.name) > 40:
+            return False
+        if y.value is not None and (y.section not in names or y.value < 0):
+            return False
+        if y.value is None and y.section is not None:
+            return False
+    for r in obj.relocations:
+        if r.section not in names or r.symbol_id not in obj.symbols_by_id:
+            return False
+    for im in obj.images:
+        cur = im.address
+        for s in im.sections:
+            if s not in obj.sections or s.address < cur:
+                return False
+            cur = s.address + s.size
+    if typ == 'executable' and obj.entry_symbol_id is not None:
+        y = obj.symbols_by_id.get(obj.entry_symbol_id)
+        if y is None or y.value is None:
+            return False
+    return typ in ('executable', 'relocatable')
+
+
+def oracle_check(obj, typ, data):
+    """independent check of one written file; returns a list of complaints (empty = fine)"""
+    bad = []
+    rc, out, err = run_readelf(data)
+    if rc != 0 or 'Error' in err or 'Warning' in err:
+        return ['readelf rejects/warns: %s' % (err.strip().splitlines() or ['rc=%d' % rc])[0][:160]]
+    r = parse_readelf(out)
+    cls, endi, mach = GABI_MACHINE[obj.arch.name]
+    h = r['hdr']
+    if h.get('Class') != cls or endi not in h.get('Data', '') or mach.lower() not in h.get('Machine', '').lower():
+        bad.append('header class/data/machine: %s / %s / %s' % (h.get('Class'), h.get('Data'), h.get('Machine')))
+    want_type = 'EXEC' if typ == 'executable' else 'REL'
+    if not h.get('Type', '').startswith(want_type):
+        bad.append('e_type %r' % h.get('Type'))
+    secs = {s['nr']: s for s in r['sections']}
+    if len(secs) != int(h.get('Number of section headers', '-1')):
+        bad.append('section header count / parse mismatch')
+    by_name = {}
+    for s in r['sections']:
+        by_name.setdefault(s['name'], s)
+    shstr = secs.get(int(h.get('Section header string table index', '-1')))
+    if shstr is None or shstr['type'] != 'STRTAB':
+        bad.append('e_shstrndx does not name a STRTAB')
+    written = list(obj.sections)
+    for sec in written:
+        if len(sec.name) > 17:
+            continue
+        s = by_name.get(sec.name)
+        if s is None or s['type'] != 'PROGBITS':
+            bad.append('section %r missing' % sec.name)
+            continue
+        if (s['size'], s['addr'], s['al']) != (sec.size, sec.address, sec.alignment):
+            bad.append('section %r size/addr/align %r' % (sec.name, (s['size'], s['addr'], s['al'])))
+        if bytes(data[s['off']:s['off'] + s['size']]) != bytes(sec.data):
+            bad.append('section %r contents differ at file offset 0x%x' % (sec.name, s['off']))
+        if sec.alignment > 0 and s['off'] % sec.alignment and not any(sec in im.sections for im in obj.images):
+            bad.append('section %r file offset 0x%x not aligned to %d' % (sec.name, s['off'], sec.alignment))
+    # symbols
+    symtab = [s for s in r['sections'] if s['type'] == 'SYMTAB']
+    if len(symtab) != 1:
+        bad.append('%d symbol tables' % len(symtab))
+    else:
+        st = symtab[0]
+        syms = r['symbols']
+        extra = ('SECTION', 'FILE')     # symbols a writer may add on its own; not demanded, not forbidden
+        if len([y for y in syms[1:] if y['type'] not in extra]) != len(obj.symbols):
+            bad.append('symbol count %d, object has %d' % (len(syms) - 1, len(obj.symbols)))
+        nloc = sum(1 for y in syms if y['bind'] == 'LOCAL')
+        if any(y['bind'] != 'LOCAL' for y in syms[:nloc]) or st['inf'] != nloc:
+            bad.append('locals-first / sh_info: sh_info=%d, locals=%d, order=%s'
+                       % (st['inf'], nloc, ''.join(y['bind'][0] for y in syms)))
+        if secs.get(st['lk'], {}).get('type') != 'STRTAB':
+            bad.append('.symtab sh_link does not name a STRTAB')
+
+        def view(y):
+            sec = None
+            if y['ndx'] not in ('UND', 'ABS', 'COM'):
+                sec = secs.get(int(y['ndx']), {}).get('name')
+            return (y['name'], y['bind'], y['type'], sec, y['value'], y['size'])
+
+        def expected(y):
+            if y.value is not None:
+                v = y.value + obj.get_section(y.section).address
+                sec = y.section
+            else:
+                v, sec = 0, None
+            return (y.name, 'GLOBAL' if y.binding == 'global' else 'LOCAL',
+                    {'func': 'FUNC', 'object': 'OBJECT'}.get(y.typ, 'NOTYPE'), sec, v, y.size)
+        got = sorted((view(y) for y in syms[1:] if y['type'] not in extra), key=repr)
+        exp = sorted((expected(y) for y in obj.symbols), key=repr)
+        if got != exp:
+            d = [g for g in got if g not in exp][:1] + [e for e in exp if e not in got][:1]
+            bad.append('symbols differ: %r' % (d,))
+        # relocations
+        if typ == 'relocatable':
+            groups = {}
+            for rel in obj.relocations:
+                groups.setdefault(rel.section, []).append(rel)
+            if set(r['relocs']) != {'.rela' + n for n in groups}:
+                bad.append('rela sections %r, expected for %r' % (sorted(r['relocs']), sorted(groups)))
+            c64 = cls == 'ELF64'
+            for n, rels in groups.items():
+                ents = r['relocs'].get('.rela' + n, [])
+                hdr = by_name.get('.rela' + n)
+                if hdr is None or hdr['type'] != 'RELA' or secs.get(hdr['inf'], {}).get('name') != n or \
+                        secs.get(hdr['lk'], {}).get('type') != 'SYMTAB':
+                    bad.append('.rela%s header (sh_info/sh_link)' % n)
+                if len(ents) != len(rels):
+                    bad.append('.rela%s has %d entries, expected %d' % (n, len(ents), len(rels)))
+                    continue
+                for e, rel in zip(ents, rels):
+                    rsym = e['info'] >> (32 if c64 else 8)
+                    rtyp = e['info'] & (0xFFFFFFFF if c64 else 0xFF)
+                    y = obj.symbols_by_id[rel.symbol_id]
+                    et = X86_PSABI.get(rel.reloc_type)
+                    if obj.arch.name == 'x86_64' and y.typ == 'func' and y.value is None and rel.reloc_type == 'rel32':
+                        et = 4      # R_X86_64_PLT32
+                    if e['offset'] != rel.offset or e['addend'] != rel.addend or \
+                            (obj.arch.name == 'x86_64' and rtyp != et) or rsym >= len(syms) or \
+                            view(syms[rsym]) != expected(y):
+                        bad.append('.rela%s entry %r, expected offset=%d sym=%s type=%r addend=%d'
+                                   % (n, e, rel.offset, y.name, et, rel.addend))
+                        break
+    # segments
+    if typ == 'executable':
+        loads = [s for s in r['segments'] if s['type'] == 'LOAD']
+        if len(loads) != len(obj.images):
+            bad.append('%d PT_LOAD segments for %d images' % (len(loads), len(obj.images)))
+        else:
+            for seg, im in zip(loads, obj.images):
+                d = bytes(im.data)
+                if (seg['vaddr'], seg['filesz'], seg['memsz']) != (im.address, len(d), len(d)):
+                    bad.append('segment for image %s: vaddr/filesz/memsz %r' % (im.name, (seg['vaddr'], seg['filesz'], seg['memsz'])))
+                elif bytes(data[seg['off']:seg['off'] + seg['filesz']]) != d:
+                    k = next(i for i in range(len(d)) if data[seg['off'] + i:seg['off'] + i + 1] != d[i:i + 1])
+                    bad.append('segment for image %s: file byte at vaddr 0x%x differs from the image' % (im.name, im.address + k))
+        entry = int(h.get('Entry point address', '0'), 16)
+        want = obj.get_symbol_id_value(obj.entry_symbol_id) if obj.entry_symbol_id is not None else 0
+        if entry != want:
+            bad.append('e_entry 0x%x, expected 0x%x' % (entry, want))
+    # second opinion: ppci's own reader
+    try:
+        from ppci.format.elf import read_elf
+        ef = read_elf(io.BytesIO(data))
+        for sec in written:
+            if not any(s.name == sec.name and bytes(s.data) == bytes(sec.data) for s in ef.sections):
+                bad.append('ppci ElfFile.load does not return section %r with its data' % sec.name)
+    except Exception as e:   # noqa: BLE001
+        bad.append('ppci ElfFile.load fails: %r' % (e,))
+    return bad
+
+
+def obj_summary(obj, typ):
+    return {'arch': obj.arch.name, 'type': typ,
+            'sections': [[s.name, s.address, s.alignment, bytes(s.data).hex()] for s in obj.sections],
+            'symbols': [[y.id, y.name, y.binding, y.value, y.section, y.typ, y.size] for y in obj.symbols],
+            'relocations': [[r.reloc_type, r.symbol_id, r.section, r.offset, r.addend] for r in obj.relocations],
+            'images': [[i.name, i.address, [s.name for s in i.sections]] for i in obj.images],
+            'entry_symbol_id': obj.entry_symbol_id}
+
+
+REPLAY_HOWTO = ('rebuild the ObjectFile from "object" (ppci.binutils.objectfile: create_section/add_data/address/'
+                'alignment, add_symbol(*row), RelocationEntry(*row), Image(name, address).add_section), call '
+                'ppci.format.elf.write_elf(obj, f, type=object["type"]) and run readelf -h -S -s -r -l -W on the file; '
+                'or: ./check C17 --replay <this file>')
+
+
+def classify_failure(obj, typ, exc):
+    """known failure classes of the writer on well-formed objects"""
+    if isinstance(exc, NotImplementedError) and obj.relocations and typ == 'relocatable':
+        return 'reloc-type-not-implemented'
+    return 'write_elf-raises-' + type(exc).__name__
+
+
+def search_objects(ctx, deep):
+    rng = ctx.rng
+    jobs = [(lab, o, t) for lab, o, t in real_objects(ctx, deep)]
+    n = 400 if deep else 70
+    for i in range(n):
+        o, t = gen_object(rng, malformed=False)
+        jobs.append(('gen%d' % i, o, t))
+    return jobs
+
+
+def search(ctx, deep=None):
+    """implementation vs readelf / ppci reader, independent of model and Spec"""
+    import logging
+    logging.disable(logging.CRITICAL)
+    _imports()
+    if deep is None:
+        deep = (not ctx.quick()) or bool(ctx.failed_stages)
+    n_eval = n_files = 0
+    for lab, o, t in search_objects(ctx, deep):
+        if not well_formed(o, t):
+            continue
+        r, exc = real_write(o, t)
+        n_eval += 1
+        if not isinstance(r, OkV):
+            key = classify_failure(o, t, exc)
+            ctx.violation({'fn': 'write_elf', 'key': key, 'arch_class': 'x86_64' if o.arch.name == 'x86_64' else 'other',
+                           'object': obj_summary(o, t), 'label': lab, 'actual': repr(exc)[:200],
+                           'expected': 'an ELF file (the object is well-formed)', 'how_to_replay': REPLAY_HOWTO})
+            continue
+        n_files += 1
+        complaints = oracle_check(o, t, r.v)
+        if complaints:
+            key = 'big-endian-fields-native-order' if o.arch.name == 'microblaze' and not big_endian_ok() \
+                else 'readback:' + re.sub(r'[^a-z_ -]', '', complaints[0].split(':')[0].lower())[:40]
+            ctx.violation({'fn': 'write_elf', 'key': key, 'object': obj_summary(o, t), 'label': lab,
+                           'actual': complaints[:4], 'expected': 'readelf and ppci.format.elf.read_elf see the object',
+                           'how_to_replay': REPLAY_HOWTO})
+    ctx.cov['stages']['search_oracle'] = {'objects': n_eval, 'files_checked_with_readelf': n_files, 'deep': bool(deep)}
+    ctx.cov['evaluations'] += n_eval
+    witnesses(ctx)
+
+
+def witnesses(ctx):
+    """re-execute the recorded defects on the implementation; report only while they still fail"""
+    from ppci.binutils.objectfile import RelocationEntry
+    # K1: big-endian machine, fields packed little-endian
+    o = mk_obj('microblaze')
+    s = o.create_section('code')
+    s.add_data(bytes([1, 2, 3, 4]))
+    o.add_symbol(0, 'main', 'global', 0, 'code', 'func', 4)
+    r, exc = real_write(o, 'relocatable')
+    if isinstance(r, OkV):
+        c = oracle_check(o, 'relocatable', r.v)
+        if c:
+            ctx.violation({'fn': 'write_elf', 'key': 'big-endian-fields-native-order', 'object': obj_summary(o, 'relocatable'),
+                           'actual': c[:2], 'expected': 'EI_DATA=2 and big-endian header fields',
+                           'how_to_replay': REPLAY_HOWTO})
+    # K2: relocatable file with a relocation on a machine without get_reloc_type
+    o = mk_obj('arm')
+    s = o.create_section('code')
+    s.add_data(bytes(8))
+    o.add_symbol(0, 'ext', 'global', None, None, 'func', 0)
+    o.add_relocation(RelocationEntry('b_imm24', 0, 'code', 0, 0))
+    r, exc = real_write(o, 'relocatable')
+    if not isinstance(r, OkV):
+        ctx.violation({'fn': 'write_elf', 'key': classify_failure(o, 'relocatable', exc), 'arch_class': 'other',
+                       'object': obj_summary(o, 'relocatable'), 'actual': repr(exc)[:200],
+                       'expected': 'an ELF file with a .relacode section', 'how_to_replay': REPLAY_HOWTO})
+    # K3: absolute symbol (link(..., extra_symbols={...}) creates them): KeyError None
+    o = mk_obj('x86_64')
+    s = o.create_section('code')
+    s.add_data(bytes(4))
+    o.add_symbol(0, 'abs_sym', 'global', 77, None, 'object', 0)
+    r, exc = real_write(o, 'executable')
+    if not isinstance(r, OkV):
+        ctx.violation({'fn': 'write_elf', 'key': 'absolute-symbol-' + type(exc).__name__,
+                       'object': obj_summary(o, 'executable'), 'actual': repr(exc)[:200],
+                       'expected': 'a symbol with st_shndx = SHN_ABS and st_value = 77', 'how_to_replay': REPLAY_HOWTO})
+
+
+def replay(rec):
+    """./check C17 --replay FILE: rebuild the object, write it, run the oracle"""
+    import json
+    import logging
+    logging.disable(logging.CRITICAL)
+    _imports()
+    from ppci.binutils.objectfile import Section, Image, RelocationEntry
+    d = rec['object']
+    o = mk_obj(d['arch'])
+    for n, a, al, hx in d['sections']:
+        s = Section(n)
+        s.address, s.alignment = a, al
+        s.add_data(bytes.fromhex(hx))
+        o.add_section(s)
+    for row in d['symbols']:
+        o.add_symbol(*row)
+    for row in d['relocations']:
+        o.relocations.append(RelocationEntry(*row))
+    for n, a, secs in d['images']:
+        im = Image(n, a)
+        for sn in secs:
+            im.add_section(o.get_section(sn))
+        o.add_image(im)
+    o.entry_symbol_id = d['entry_symbol_id']
+    r, exc = real_write(o, d['type'])
+    if not isinstance(r, OkV):
+        print('write_elf raises', repr(exc))
+        return 1
+    c = oracle_check(o, d['type'], r.v)
+    print(json.dumps({'complaints': c}, indent=1))
+    return 1 if c else 0
+
+
+# ------------------------------------------------------------------ run
+def run(ctx):
+    import logging
+    logging.disable(logging.CRITICAL)
+    _imports()
+    regen(ctx)
+    ok, _ = ctx.build(['Proofs/C17_codec.vo', 'Proofs/C17_recover.vo', 'Proofs/C17_bounded.vo'])
+    if ok:
+        ctx.check_props('Props/C17.v')
+    if ctx.build(['Model/ElfWriter.vo', 'Proofs/C17_recover.vo', 'Lib/Val.vo'])[0]:
+        correspondence(ctx, not ctx.quick())
+    search(ctx)
+    ctx.cov['exhaustive'] = False
+
+
+MANIFEST = {
+    'text': 'partial. Proved in Coq, for all inputs: the reader written from the gABI (Spec/ElfSpec.v, independent of ppci) '
+            'decodes every field, every ELF/section/program header, symbol and RELA entry that the modelled writer '
+            'serialises (ELF32/ELF64, both byte orders, layouts regenerated from ppci/format/elf/headers.py on every run), '
+            'reads back whole tables located anywhere in a file, finds every name the string table handed out, accepts the '
+            'locals-before-globals order with the sh_info the writer computes for any symbol list, splits RELA info words, '
+            'and sees through a PT_LOAD segment exactly the image byte at every virtual address of every section of the '
+            'image (given the image bytes sit at p_offset). Proved on a finite family only (402 objects; and re-evaluated '
+            'in Coq on the model bytes of every object generated in each run): the whole-file composition — the reader '
+            'accepts write(o) and recovers header, sections (name, size, contents, address, alignment), symbols (name, '
+            'binding, type, section, value, size, sh_info), relocations (offset, symbol, type, addend) and segments. '
+            'Only validated, not proved: model bytes = real ppci.format.elf.write_elf bytes (byte-for-byte differential test '
+            'on asm/c3c/cc objects for x86_64, arm, riscv, xtensa, microblaze, linked executables and generated ObjectFile '
+            'instances incl. malformed ones) and that binutils readelf and ppci\'s own ElfFile.load read the same facts '
+            '(search oracle). Missing: the unbounded proof of the offset bookkeeping of export_object.',
+    'note': 'not modelled: ET_DYN (.dynamic/PT_DYNAMIC/DT_NEEDED), create_hash_table (dead code), DWARF (never emitted). '
+            'Defects: big-endian (microblaze) files announce ELFDATA2MSB but pack every field in native order '
+            '(fixes/C17-header-endianness.diff; Coq refutation c17_native_order_bigendian_refuted); relocatable files '
+            'with relocations cannot be written for arm/riscv/xtensa/microblaze (get_reloc_type NotImplementedError); '
+            'absolute symbols (link extra_symbols) raise KeyError. Trusted: Coq kernel, hand model + differential test, '
+            'table exporter, BytesIO/struct semantics, the gABI reading in ElfSpec.v, readelf.',
+    'technique': 'Coq layer proofs + bounded whole-file vm_compute + per-run Coq reader validation + readelf differential',
+}
